@@ -421,7 +421,9 @@ pub fn c17_history(seed: u64) -> Case {
     let mut mix = Mix::data_only();
     let pools: [&[&str]; 3] = [&["default", "a", "ab"], &["default", "a", "a_b", "ab"], &["default", "x", "default2"]];
     mix.kgs = rw.pick(&pools).iter().map(|s| s.to_string()).collect();
-    mix.rels = vec!["r".into(), "s".into()];
+    // relation names with '_' so that "{kg}:{relation}" shard names of different graphs can map to
+    // similar file names (graph a + relation b_r vs graph a_b + relation r)
+    mix.rels = if rw.chance(1, 2) { vec!["r".into(), "s".into()] } else { vec!["r".into(), "b_r".into()] };
     mix.min_ops = 4;
     mix.max_ops = 14;
     mix.w_insert = 10;
